@@ -318,34 +318,8 @@ func localOrigin(w *World, fi *FuncInfo, obj types.Object) (*types.Var, string) 
 		}
 		// x := recv.helper(): the helper returns a local with an origin of its own
 		if c, ok := unparen(assigns[0].Rhs[0]).(*ast.CallExpr); ok && w != nil {
-			if cal := callee(info, c); cal != nil && !cal.Exported() {
-				if t := w.Decls[cal]; t != nil && t.Pkg == fi.Pkg {
-					var fv *types.Var
-					how := ""
-					consistent := true
-					ast.Inspect(t.Decl.Body, func(n ast.Node) bool {
-						if _, isLit := n.(*ast.FuncLit); isLit {
-							return false
-						}
-						if ret, ok := n.(*ast.ReturnStmt); ok && len(ret.Results) == 1 {
-							if o := objOf(t.Pkg.TypesInfo, ret.Results[0]); o != nil {
-								f2, h2 := localOrigin(w, t, o)
-								if f2 == nil || (fv != nil && f2 != fv) {
-									consistent = false
-								}
-								fv, how = f2, h2
-							} else if f2 := fieldOf(t.Pkg.TypesInfo, ret.Results[0]); f2 != nil {
-								fv, how = f2, "copy"
-							} else {
-								consistent = false
-							}
-						}
-						return true
-					})
-					if consistent && fv != nil {
-						return fv, how
-					}
-				}
+			if fv, how := helperReturnOrigin(w, fi, c); fv != nil {
+				return fv, how
 			}
 		}
 	}
@@ -669,4 +643,76 @@ func (ca *closeAnalysis) reachableLoops() []*closeLoop {
 	}
 	visit(ca.fi, 3)
 	return out
+}
+
+// helperReturnOrigin: the call goes to a private helper every return of which
+// hands back a field (or a local with a field origin): the value is a copy /
+// collection of that field.
+func helperReturnOrigin(w *World, fi *FuncInfo, c *ast.CallExpr) (*types.Var, string) {
+	info := fi.Pkg.TypesInfo
+	// slices.Collect(maps.Keys(x.f)): every key of the table
+	if isFunc(callee(info, c), "slices", "", "Collect") && len(c.Args) == 1 {
+		if inner, ok := unparen(c.Args[0]).(*ast.CallExpr); ok && isFunc(callee(info, inner), "maps", "", "Keys") && len(inner.Args) == 1 {
+			if fv := fieldOf(info, inner.Args[0]); fv != nil {
+				return fv, "collect"
+			}
+		}
+	}
+	cal := callee(info, c)
+	if cal == nil || cal.Exported() {
+		return nil, ""
+	}
+	t := w.Decls[cal]
+	if t == nil || t.Pkg != fi.Pkg {
+		return nil, ""
+	}
+	var fv *types.Var
+	how := ""
+	consistent := true
+	ast.Inspect(t.Decl.Body, func(n ast.Node) bool {
+		if _, isLit := n.(*ast.FuncLit); isLit {
+			return false
+		}
+		if ret, ok := n.(*ast.ReturnStmt); ok && len(ret.Results) == 1 {
+			if o := objOf(t.Pkg.TypesInfo, ret.Results[0]); o != nil {
+				f2, h2 := localOrigin(w, t, o)
+				if f2 == nil || (fv != nil && f2 != fv) {
+					consistent = false
+				}
+				fv, how = f2, h2
+			} else if f2 := fieldOf(t.Pkg.TypesInfo, ret.Results[0]); f2 != nil {
+				fv, how = f2, "copy"
+			} else if c2, ok := unparen(ret.Results[0]).(*ast.CallExpr); ok {
+				f2, h2 := helperReturnOrigin(w, t, c2)
+				if f2 == nil || (fv != nil && f2 != fv) {
+					consistent = false
+				}
+				fv, how = f2, h2
+			} else {
+				consistent = false
+			}
+		}
+		return true
+	})
+	if consistent && fv != nil {
+		return fv, how
+	}
+	return nil, ""
+}
+
+// exprOrigin: where the collection denoted by e comes from (a field directly, a
+// local with a field origin, or the result of a helper that returns one).
+func exprOrigin(w *World, fi *FuncInfo, e ast.Expr) (*types.Var, string) {
+	info := fi.Pkg.TypesInfo
+	e = unparen(e)
+	if fv := fieldOf(info, e); fv != nil {
+		return fv, "direct"
+	}
+	if o := objOf(info, e); o != nil {
+		return localOrigin(w, fi, o)
+	}
+	if c, ok := e.(*ast.CallExpr); ok {
+		return helperReturnOrigin(w, fi, c)
+	}
+	return nil, ""
 }
